@@ -332,6 +332,25 @@ def repeat_cases(rng, n):
         out.append((case(f, a, rows, cols), case(f, b, rows, cols)))
     return out
 
+def window_cases(rng, n):
+    """two files, split windows (^Ws ^Wj ^Wk ^Wo ^Wc ^Wx), :e / :b between them, small edits and motions (C20)"""
+    out = []
+    for i in range(n):
+        fa = gen_file(rng) or b"a1\na2\na3\n"
+        fb = b"".join(b"b%d line\n" % k for k in range(1, 3 + rng.below(6)))
+        rows, cols = geometry(rng)
+        rows = max(rows, 8)
+        parts = []
+        for _ in range(3 + rng.below(10)):
+            r = rng.below(14)
+            if r < 6: parts.append(b"\x17" + rng.pick([b"s", b"s", b"j", b"k", b"o", b"c", b"x", b"j", b"o"]))
+            elif r < 8: parts.append(rng.pick([b":e fb\n", b":e fa\n", b":e #\n", b":b 1\n", b":b 2\n", b":e! fb\n", b":e! fa\n"]))
+            elif r < 11: parts.append(rng.pick([b"x", b"dd", b"ihi \x1b", b"Aend\x1b", b"p", b"J", b"u"]))
+            else: parts.append(rng.pick([b"j", b"G", b"1G", b"w", b"$", b"k"]))
+        c = case(fa, b"".join(parts), rows, cols)
+        out.append(c.replace(" rows=", " file2=" + hexs(fb) + " rows=", 1))
+    return out
+
 def undo_cases(rng, n):
     """vi commands that change the text, motions between them, u and ^R; some with the ruler switched off or
     restricted (`:se noru`, `ru=0/2/4`: the ruler must not be what separates the undo steps) (C04)"""
